@@ -30,7 +30,7 @@
 
 #define MAXP 32
 #define MAXO 16
-#define MAXC 256
+#define MAXC 2600
 #define NVAR 16
 #define DISPATCH_CAP 3000
 
@@ -174,6 +174,23 @@ static void dump_hist(const char *k, int idx, struct cmb_timeseries *ts)
     printf("\n");
 }
 
+/* the library's own time-weighted summary of a history, as integers (total weight, weighted sum of the values) */
+static void dump_wsum(const char *k, int idx, struct cmb_timeseries *ts)
+{
+    const struct cmb_dataset *ds = (const struct cmb_dataset *)ts;
+    const uint64_t n = ds->count;
+    if (n < 2u) { printf("W %s %d n=%" PRIu64 " wsum=0 wx=0\n", k, idx, n); return; }
+    int big = fabs(ts->ta[n - 1u] - ts->ta[0]) >= 1048576.0;
+    for (uint64_t i = 0; i < n; i++) if (fabs(ds->xa[i]) >= 1099511627776.0) big = 1;
+    if (big) { printf("W %s %d n=%" PRIu64 " wsum=big wx=big\n", k, idx, n); return; }
+    struct cmb_wtdsummary *ws = cmb_wtdsummary_create();
+    (void)cmb_timeseries_summarize(ts, ws);
+    const double wsum = ws->wsum;
+    if (ts->ta[n - 1u] - ts->ta[0] == 0.0) printf("W %s %d n=%" PRIu64 " wsum=0 wx=0\n", k, idx, n);
+    else printf("W %s %d n=%" PRIu64 " wsum=%lld wx=%lld\n", k, idx, n, llround(wsum), (wsum > 0.0) ? llround(cmb_wtdsummary_mean(ws) * wsum) : 0LL);
+    cmb_wtdsummary_destroy(ws);
+}
+
 static uint64_t gcount(struct cmb_resourceguard *g) { return cmi_hashheap_count((struct cmi_hashheap *)g); }
 
 /* After the final dump (nothing below is part of the compared log): end the run the way the library's own tests do - an event
@@ -298,6 +315,11 @@ int main(void)
     for (int i = 0; i < nbuf; i++) dump_hist("buf", i, cmb_buffer_history(bufs[i]));
     for (int i = 0; i < noq; i++) dump_hist("oq", i, cmb_objectqueue_history(oqs[i]));
     for (int i = 0; i < npq; i++) dump_hist("pq", i, cmb_priorityqueue_history(pqs[i]));
+    for (int i = 0; i < nres; i++) dump_wsum("res", i, cmb_resource_history(res[i]));
+    for (int i = 0; i < npool; i++) dump_wsum("pool", i, cmb_resourcepool_get_history(pools[i]));
+    for (int i = 0; i < nbuf; i++) dump_wsum("buf", i, cmb_buffer_history(bufs[i]));
+    for (int i = 0; i < noq; i++) dump_wsum("oq", i, cmb_objectqueue_history(oqs[i]));
+    for (int i = 0; i < npq; i++) dump_wsum("pq", i, cmb_priorityqueue_history(pqs[i]));
     fflush(stdout);
     teardown();
     return 0;
